@@ -82,15 +82,21 @@ func (b *backendConfigSessionHandler) HandlePacket(pc *proto.PacketContext) {
 	case *plugin.Message:
 		b.handlePluginMessage(pc, p)
 	case *packet.Disconnect:
-		b.serverConn.disconnect()
 		// If the player receives a DisconnectPacket without a connection to a server in progress,
 		// it means that the backend server has kicked the player during reconfiguration
 		if b.serverConn.player.connectionInFlight() != nil {
+			// Report the kick to the pending connection request before closing the
+			// connection: closing runs Disconnected() synchronously, which would otherwise
+			// complete the request with a generic error first (losing the kick reason) and,
+			// once the requester cleared the in-flight slot, make this handler start a
+			// second, concurrent fallback for the same kick.
 			result := disconnectResultForPacket(b.log.V(1), p,
 				b.serverConn.player.Protocol(), b.serverConn.server, true,
 			)
 			b.requestCtx.result(result, nil)
+			b.serverConn.disconnect()
 		} else {
+			b.serverConn.disconnect()
 			b.serverConn.player.handleDisconnect(b.serverConn.server, p, true)
 		}
 	case *packet.Transfer:
